@@ -47,6 +47,7 @@ from __future__ import annotations
 
 import atexit
 import copy
+import datetime as _dt
 import glob
 import itertools
 import json
@@ -86,7 +87,25 @@ SIGNATURES = {
     "add": "add-raises-after-append",
     "stat": "stale-status-after-rerun",
     "poll": "status-unsaved-when-wait-raises",
+    "res": "results-replace-delta-parameters",
+    "gst": "stale-status-after-get-results",
 }
+SIG_DOTS = "list-existing-misses-dot-names"
+
+# the clock of the code under test (`datetime.now()` inside job_group): EPOCH + a number of seconds the harness sets
+EPOCH = _dt.datetime(2030, 1, 1, 0, 0, 0)
+_CLOCK = {"tick": 0}
+
+
+class FakeDateTime(_dt.datetime):
+    @classmethod
+    def now(cls, tz=None):
+        return EPOCH + _dt.timedelta(seconds=_CLOCK["tick"])
+
+
+def tick_of(stamp: str) -> int:
+    """'created_date' of a group file -> seconds since EPOCH"""
+    return int((_dt.datetime.strptime(stamp, "%Y%m%d_%H%M%S") - EPOCH).total_seconds())
 
 # answers of a status script that are not a status: the request itself fails
 FATAL_FAULTS = ["http:404", "http:500", "http:401", "http:403", "http:400", "http:503"]   # re-raised at once
@@ -132,6 +151,7 @@ class Server:
         self.next = 0
         self.outs = []
         self.sts = []
+        self.rsps = []        # answers to get_job_results
         self.created = []     # [(id, payload)] of the running operation (create_job)
         self.accepted = []    # ids issued in the running operation (create + rerun)
         self.all_created = []
@@ -142,8 +162,8 @@ class Server:
         self.last = None      # ("issue", outcome) | ("status", answer): last call of the running operation
         self.before_kill = None   # callback run at the instant the process dies
 
-    def script(self, outs, sts):
-        self.outs, self.sts = list(outs), list(sts)
+    def script(self, outs, sts, rsps=()):
+        self.outs, self.sts, self.rsps = list(outs), list(sts), list(rsps)
         self.created, self.accepted = [], []
         self.log, self.last = [], None
 
@@ -178,6 +198,20 @@ class Server:
         a = self.sts.pop(0)
         self.last = ("status", a)
         return a
+
+    def result(self):
+        self.calls += 1
+        if not self.rsps:
+            self._kill()
+        a = self.rsps.pop(0)
+        self.last = ("results", a)
+        return a
+
+
+def delta_intact(job):
+    """`_delta_parameters` still is the dictionary {'command': {...}, 'mapping': {...}} every RemoteJob starts with"""
+    d = job._delta_parameters
+    return isinstance(d, dict) and set(d) == {"command", "mapping"}
 
 
 def idstr(k):
@@ -247,6 +281,8 @@ class FakeHandler:
         server = _CURRENT["server"]
         server.log.append(("status", job_id, self._meta()))
         st = server.status()
+        if st == "intr":
+            raise KeyboardInterrupt()
         if st == "conn":
             raise requests.exceptions.ConnectionError("scripted connection error")
         if is_fault(st):
@@ -260,7 +296,32 @@ class FakeHandler:
         raise AssertionError("cancel_job is not part of C19 histories")
 
     def get_job_results(self, job_id):
-        raise AssertionError("get_job_results is not part of C19 histories")
+        import requests
+        server = _CURRENT["server"]
+        server.log.append(("results", job_id, self._meta()))
+        r = server.result()
+        if r == "intr":
+            raise KeyboardInterrupt()
+        if r == "conn":
+            raise requests.exceptions.ConnectionError("scripted connection error")
+        if is_fault(r):
+            resp = requests.models.Response()
+            resp.status_code = int(r.split(":")[1])
+            raise requests.exceptions.HTTPError(f"{resp.status_code} scripted results error", response=resp)
+        if r == "unavailable":
+            return {"results": None} if server.calls % 2 else {}
+        import perceval as pcvl
+        from perceval.serialization import serialize
+        if r == "ok:plain":
+            return {"results": json.dumps({"results": {"value": 1}, "physical_perf": 1})}
+        assert r == "ok:mapped", r
+        ctx = {"result_mapping": ["perceval.utils", "sample_count_to_probs"]}
+        if server.calls % 3 == 0:
+            ctx["mapping_delta_parameters"] = {}
+        bsc = pcvl.BSCount()
+        bsc[pcvl.BasicState([1, 0])] = 3
+        bsc[pcvl.BasicState([0, 1])] = 1
+        return {"results": json.dumps({"results": serialize(bsc), "job_context": ctx})}
 
     def fetch_platform_details(self):
         return {"specs": {"available_commands": list(self.platform_commands)}, "type": "simulator",
@@ -278,6 +339,9 @@ class _NoTqdm:
         pass
 
     def close(self):
+        pass
+
+    def refresh(self):
         pass
 
 
@@ -303,12 +367,32 @@ class Env:
             os.makedirs(JobGroup._DIR_PATH)
         jgmod.RPCHandler = self.Handler
         jgmod.tqdm = _NoTqdm
-        jgmod.time = types.SimpleNamespace(sleep=lambda s: None)
+        jgmod.time = types.SimpleNamespace(sleep=self.sleep)
+        jgmod.datetime = FakeDateTime
+        _CLOCK["tick"] = 0
+        self.track_mode = False
+        self.calls_at_sleep = 0
         RemoteJob.STATUS_REFRESH_DELAY = -1     # every status evaluation may see a new server status
         self.handlers = [self.Handler(n, u, t, p) for (n, u, t, p) in HANDLERS]
         self.tables = {"hd": {}, "name": {"unnamed": 0}, "rest": {}, "rm": {}}
         self.group = group
         self.file = self.file_of(group)
+
+    def sleep(self, seconds):
+        """`time.sleep` of job_group: the next interruptible point after a status request.  A scripted "intr" is a
+        Ctrl-C arriving there.  During track_progress a sleep reached without any server call since the previous one
+        means that nothing can ever change again (no sent job left to ask about, yet something still counts as
+        waiting): the loop cannot end by itself and the process has to be stopped."""
+        srv = self.server
+        if srv.sts and srv.sts[0] == "intr":
+            srv.sts.pop(0)
+            srv.last = ("sleep", "intr")
+            raise KeyboardInterrupt()
+        if self.track_mode:
+            if srv.calls == self.calls_at_sleep:
+                srv.last = ("sleep", "hang")
+                srv._kill()
+            self.calls_at_sleep = srv.calls
 
     def remember_file(self):
         """the process dies now: this is the file it leaves"""
@@ -407,7 +491,25 @@ class Env:
 
     def mem_view(self, jg):
         return [{"id": idnum(j.id), "st": j._job_status.status.name, "hd": self.meta_of_handler(j._rpc_handler),
-                 "name": self.tok("name", j.name)} for j in jg.remote_jobs]
+                 "name": self.tok("name", j.name), "res": bool(j._results), "dp": delta_intact(j)}
+                for j in jg.remote_jobs]
+
+    def created_tick(self, name=None):
+        path = self.file if name is None else self.file_of(name)
+        if not os.path.exists(path):
+            return None
+        with open(path, encoding="UTF-8") as f:
+            return tick_of(json.load(f)["created_date"])
+
+    def dir_files(self):
+        """raw content of every file of the job_group directory"""
+        d = self.JobGroup._DIR_PATH
+        out = {}
+        if os.path.isdir(d):
+            for f in os.listdir(d):
+                with open(os.path.join(d, f), "rb") as fh:
+                    out[f] = fh.read()
+        return out
 
     # ---- building and describing jobs ----------------------------------------------------------
     def build_job(self, spec):
@@ -463,7 +565,8 @@ class Env:
         out = {"id": idnum(job.id), "st": job._job_status.status.name, "hd": self.meta_of_handler(job._rpc_handler),
                "name": self.tok("name", job.name), "req": self.canon_req(job._request_data),
                "ctx": self.canon_ctx(job._job_context),
-               "dmap": self.canon_map(d["mapping"]) if d["mapping"] else None}
+               "dmap": self.canon_map(d["mapping"]) if d["mapping"] else None,
+               "res": bool(job._results), "dp": True}
         if "max_samples" in d["command"]:
             out["cmd_max"] = d["command"]["max_samples"]
         return out
@@ -476,6 +579,25 @@ def exc_name(e):
     return "raised:" + type(e).__name__
 
 
+def lean_rsp(r):
+    """answer of the results script as the model reads it"""
+    if r == "intr":
+        return "fault:KeyboardInterrupt"
+    return "fault:" + fault_class(r) if is_fault(r) else r
+
+
+def describe_op(op):
+    k = op["op"]
+    if k == "wipe":
+        return "delete_job_group(name)" if op["how"] == "name" else "delete_all_job_groups()"
+    if k == "delete_date":
+        return f"delete_job_groups_date(second {op['cutoff']})"
+    if k == "other":
+        return {"list": "list_existing()", "delete": f"delete_job_group({op.get('name')!r})",
+                "touch": f"JobGroup({op.get('name')!r}).add(job)"}[op["what"]]
+    return k
+
+
 def progress_view(p):
     return [p["Finished"][1]["successful"], p["Finished"][1]["unsuccessful"], p["Unfinished"][1]["sent"],
             p["Unfinished"][1]["not sent"], p["Total"]]
@@ -485,21 +607,25 @@ class Runner:
     """Executes a history on the real code one operation at a time (the random generator builds histories
     online against it, so that scripts, duplicates and outside ids fit the group's actual state)."""
 
-    def __init__(self, root, dir_exists, name=GROUP, twin=None, twin_pos="before"):
+    def __init__(self, root, dir_exists, name=GROUP, twin=None, twin_pos="before", twin_tick=0):
         self.env = Env(root, dir_exists, name)
         self.oracle, self.steps, self.lean_ops, self.ops = [], [], [], []
         self.dir_exists = dir_exists
-        self.name, self.twin, self.twin_pos = name, twin, twin_pos
+        self.name, self.twin, self.twin_pos, self.twin_tick = name, twin, twin_pos, twin_tick
         self.twin_file = None     # content of the bystander group's file once it exists
+        self.others = {}          # every other group the harness made in this directory: name -> creation second
         self.dead = False
         self.jg = None
         with warnings.catch_warnings():
             warnings.simplefilter("ignore")
             try:
                 if twin is not None and twin_pos == "before":
+                    _CLOCK["tick"] = min(twin_tick, 0)
                     self.make_twin()
+                _CLOCK["tick"] = 0           # the group itself is created at second 0 of the history
                 self.jg = self.env.JobGroup(name)
                 if twin is not None and twin_pos == "after":
+                    _CLOCK["tick"] = max(twin_tick, 0)
                     self.make_twin()
                 self.init = snapshot(self.env, self.jg, self.oracle, -1, None, None)
                 self.check_twin(-1)
@@ -515,6 +641,8 @@ class Runner:
         g.add(env.build_job(dict(PLAIN, hd=TWIN_HD, name=4, rest=3)))
         env.JobGroup(self.twin)       # and it is opened once more by this process, as a user listing groups would
         self.twin_file = env.read_file(self.twin)
+        if self.twin_file is not None:
+            self.others[self.twin] = env.created_tick(self.twin)
         if self.twin_file is None or len(self.twin_file) != 1:
             self.oracle.append((-1, "group-file-missing", f"a group named {self.twin!r} was created and given one job; "
                                 f"its file {os.path.basename(env.file_of(self.twin))!r} holds {self.twin_file}"))
@@ -577,6 +705,9 @@ class Runner:
         res, view = "ok", []
         srv.script([], [])
         lop = {"op": kind}
+        _CLOCK["tick"] += int(op.get("dt", 0))
+        before, main_created = env.dir_files(), env.created_tick()
+        may_change, expected_gone = {os.path.basename(env.file)}, set()
         try:
             if kind == "reopen":
                 jg = JobGroup(env.group)
@@ -616,6 +747,34 @@ class Runner:
                 view = [i for i, j in enumerate(jobs) if any(j is g for g in got)]
                 if len(view) != len(got):
                     oracle.append((t, "list-returns-foreign-job", f"list_{op['kind']}_jobs returned a job not in the group"))
+            elif kind == "get_results":
+                lop.update({"sts": op["sts"], "rsps": [lean_rsp(r) for r in op["rsps"]]})
+                srv.script([], op["sts"], op["rsps"])
+                got = jg.get_results()
+                view = [0 if r is None else 1 for r in got]
+                if len(got) != len(jg):
+                    oracle.append((t, "results-list-length", f"get_results() returned {len(got)} entries for {len(jg)} jobs"))
+            elif kind == "track":
+                lop["sts"] = op["sts"]
+                srv.script([], op["sts"])
+                env.track_mode, env.calls_at_sleep = True, srv.calls
+                try:
+                    jg.track_progress()
+                finally:
+                    env.track_mode = False
+            elif kind == "wipe":
+                lop["now"] = _CLOCK["tick"]
+                if op["how"] == "name":
+                    JobGroup.delete_job_group(env.group)
+                else:
+                    JobGroup.delete_all_job_groups()
+                jg = JobGroup(env.group)        # the stale object is dropped, the name opened again
+            elif kind == "delete_date":
+                lop.update({"cutoff": op["cutoff"], "now": _CLOCK["tick"]})
+                JobGroup.delete_job_groups_date(EPOCH + _dt.timedelta(seconds=op["cutoff"]))
+                jg = JobGroup(env.group)
+            elif kind == "other":
+                may_change, expected_gone = self.other_op(op, t)
             else:
                 raise RuntimeError(f"unknown op {kind}")
         except Kill:
@@ -625,6 +784,8 @@ class Runner:
                 jg = JobGroup(env.group)      # the process is gone: only the file survives
             except Exception:             # noqa: BLE001 — reported by snapshot() below
                 self.dead = True
+        except KeyboardInterrupt as e:    # the scripted Ctrl-C left the operation
+            res = exc_name(e)
         except Exception as e:        # noqa: BLE001 — every exception class is an observation
             res = exc_name(e)
         self.jg = jg
@@ -647,6 +808,15 @@ class Runner:
         self.lean_ops.append(lop)
         snap = snapshot(env, jg, oracle, t, op, res, faults)
         snap["res"], snap["view"], snap["faults"] = res, view, faults
+        info = {"last": list(srv.last) if srv.last else None}
+        if kind == "get_results":
+            asked = {}
+            for w_, jid, _m in srv.log:
+                if w_ == "status":
+                    asked[jid] = asked.get(jid, 0) + 1
+            info["requery"] = any(v > 1 for v in asked.values())
+            info["rsps_used"] = op["rsps"][:len(op["rsps"]) - len(srv.rsps)]
+        snap["info"] = info
         if snap["reload"] is None:
             self.dead = True
         prev_file = self.prev_file
@@ -676,6 +846,8 @@ class Runner:
                                            f"before the launch in {what}: stored {stored['payload']} sent {sent['payload']}"))
         # every other request about a job of the group goes out with that job's stored platform metadata
         for what_, job_id, meta in srv.log:
+            if job_id is None:        # results asked for a job that was never sent: no stored identifier to look up
+                continue
             k = idnum(job_id)
             held = next((e["hd"] for f_ in (prev_file, snap["disk"]) if f_ is not None for e in f_ if e["id"] == k), None)
             if held is not None and env.canon_meta(meta) != held:
@@ -687,7 +859,97 @@ class Runner:
             oracle.append((t, "duplicate-id-accepted", f"adding a job whose id is already in the group gave {res}"))
         self.steps.append(snap)
         self.prev_file = snap["disk"]
+        self.check_directory(t, op, res, before, main_created, may_change, expected_gone)
         self.check_twin(t)
+
+    # ---- operations on other names, and what any operation may do to the directory -------------------------------
+    def other_op(self, op, t):
+        """list_existing / deleting / opening+saving groups with ANOTHER name -> (files that may change, files that
+        must disappear)"""
+        env = self.env
+        JobGroup = env.JobGroup
+        ext = "." + env.jgmod.FILE_EXT_JGRP
+        what = op["what"]
+        if what == "list":
+            got = JobGroup.list_existing()
+            want = sorted([n for n in [self.name] + list(self.others) if os.path.exists(env.file_of(n))])
+            if sorted(got) != want:
+                self.oracle.append((t, "list-existing-wrong", f"list_existing() returned {sorted(got)}; the groups saved in "
+                                                              f"the directory are {want} (files {sorted(env.dir_files())})"))
+            return set(), set()
+        name = op["name"]
+        assert name != self.name
+        if what == "delete":
+            existed = (name + ext) in env.dir_files()
+            JobGroup.delete_job_group(name)
+            return set(), ({name + ext} if existed else set())
+        if what == "touch":
+            g = JobGroup(name)
+            g.add(env.build_job(dict(PLAIN, hd=TWIN_HD, name=3, rest=2)))
+            self.others[name] = env.created_tick(name)
+            if name == self.twin:
+                self.twin_file = env.read_file(name)
+            return {name + ext}, set()
+        raise RuntimeError(f"unknown namespace operation {what}")
+
+    def check_directory(self, t, op, res, before, main_created, may_change, expected_gone):
+        """direct oracle on the directory: which files an operation may touch, must remove, must leave byte-identical"""
+        env, oracle = self.env, self.oracle
+        ext = "." + env.jgmod.FILE_EXT_JGRP
+        main_f = os.path.basename(env.file)
+        kind = op["op"]
+        after = env.dir_files()
+        sig_set = "other-group-changed"
+        if kind == "wipe" and op["how"] == "all" and res == "ok":
+            expected_gone, sig_set = {f for f in before if f != main_f}, "delete-all-leaves-groups"
+        elif kind == "delete_date" and res == "ok":
+            expected_gone = {n + ext for n, c in self.others.items() if c is not None and c < op["cutoff"] and n + ext in before}
+            sig_set = "delete-by-date-wrong-set"
+        for f in sorted(set(before) | set(after)):
+            if f in may_change:
+                continue
+            if f in expected_gone:
+                if f in after:
+                    oracle.append((t, sig_set, f"{describe_op(op)} should have removed the group file {f!r} "
+                                               f"(creation seconds of the other groups: {self.others}); it is still there"))
+                continue
+            if f not in after:
+                oracle.append((t, sig_set, f"{describe_op(op)} on the group named {self.name!r} removed the file {f!r} of "
+                                           f"another group (creation seconds {self.others})"))
+            elif f not in before:
+                oracle.append((t, "group-file-appeared", f"{describe_op(op)} on the group named {self.name!r} created the "
+                                                         f"file {f!r}, which is the file of no group that was opened"))
+            elif after[f] != before[f]:
+                oracle.append((t, "other-group-changed", f"{describe_op(op)} on the group named {self.name!r} changed the "
+                                                         f"content of the file {f!r} of another group"))
+        # the group itself after a deletion
+        if res == "ok" and kind in ("wipe", "delete_date") and self.jg is not None:
+            hit = kind == "wipe" or (main_created is not None and main_created < op["cutoff"])
+            now_created = env.created_tick()
+            if hit:
+                if len(self.jg) != 0 or now_created != _CLOCK["tick"] or env.read_file() != []:
+                    oracle.append((t, "deleted-group-not-fresh",
+                                   f"after {describe_op(op)} the name {self.name!r} opens as a group of {len(self.jg)} jobs "
+                                   f"created at second {now_created} (now: second {_CLOCK['tick']}), file {env.read_file()}"))
+            elif after.get(main_f) != before.get(main_f):
+                oracle.append((t, "delete-by-date-wrong-set",
+                               f"{describe_op(op)}: the group named {self.name!r} was created at second {main_created}, not "
+                               f"before the cut-off, yet its file changed"))
+        if kind not in ("wipe", "delete_date") and main_created is not None and main_f in after:
+            now_created = env.created_tick()
+            if now_created != main_created:
+                oracle.append((t, "creation-date-changed",
+                               f"{describe_op(op)} changed the created_date of the group named {self.name!r} from second "
+                               f"{main_created} to second {now_created}: date-based deletion no longer sees when the group "
+                               f"was created"))
+        if kind == "other" and after.get(main_f) != before.get(main_f):
+            oracle.append((t, "group-changed-by-operation-on-other-name",
+                           f"{describe_op(op)} changed the file of the group named {self.name!r}"))
+        for n in list(self.others):       # follow what really is in the directory
+            if n + ext not in after:
+                del self.others[n]
+                if n == self.twin:
+                    self.twin_file = None
 
     def finish(self):
         env = self.env
@@ -698,13 +960,16 @@ class Runner:
             hist["name"] = self.name
         if self.twin is not None:
             hist["twin"], hist["twin_pos"] = self.twin, self.twin_pos
+            if self.twin_tick:
+                hist["twin_tick"] = self.twin_tick
         return hist, {"init": self.init, "steps": self.steps, "lean_ops": self.lean_ops, "created": created,
                       "oracle": self.oracle, "hd_table": dict(env.tables["hd"])}
 
 
 def run_real(root, hist):
     """-> dict(init, steps=[...], lean_ops=[...], created=[...], oracle=[(step, signature, what)])"""
-    r = Runner(root, hist["dir"], hist.get("name", GROUP), hist.get("twin"), hist.get("twin_pos", "before"))
+    r = Runner(root, hist["dir"], hist.get("name", GROUP), hist.get("twin"), hist.get("twin_pos", "before"),
+               hist.get("twin_tick", 0))
     for op in hist["ops"]:
         r.step(copy.deepcopy(op))
     return r.finish()[1]
@@ -755,6 +1020,11 @@ def snapshot(env, jg, oracle, t, op, res, faults=None):
     # ---- direct oracle: re-opening yields the same group ----
     unser_sig = SIGNATURES["add"] if (op is not None and op.get("op") == "add" and str(res).startswith("raised:")
                                       and len(jg) == len(jg2) + 1) else "group-in-memory-unusable"
+    clobbered = [i for i, j in enumerate(jg.remote_jobs) if not delta_intact(j)]
+    if clobbered and not all(j._job_status.success for j in (jg.remote_jobs[i] for i in clobbered)):
+        # direct observation on the object: its delta parameters are no longer the two-key dictionary; the next
+        # _create_payload_data (any save of the group, any rerun) raises KeyError
+        unser_sig = SIGNATURES["res"]
     if len(jg2) != len(jg):
         if disk is None and not os.path.isdir(os.path.dirname(env.file)):
             oracle.append((t, SIGNATURES["dir"], f"memory holds {len(jg)} jobs, but there is no file "
@@ -787,6 +1057,8 @@ def snapshot(env, jg, oracle, t, op, res, faults=None):
             elif fields in (["status"], ["status", "body.presence"]) and op is not None \
                     and op.get("op") == "launch" and op.get("rerun"):
                 sig = SIGNATURES["stat"]     # a status left unsaved by a rerun launch
+            elif fields in (["status"], ["status", "body.presence"]) and op is not None and op.get("op") == "get_results":
+                sig = SIGNATURES["gst"]      # a status refreshed by job.get_results() and not saved
             else:
                 sig = "reopened-differs:" + ",".join(fields)
             oracle.append((t, sig, f"job {i}: memory {a} vs re-opened {b}"))
@@ -817,7 +1089,7 @@ def snapshot(env, jg, oracle, t, op, res, faults=None):
         sent_ids = [e["id"] for e in disk if e["id"] is not None]
         if len(sent_ids) != len(set(sent_ids)):
             oracle.append((t, "duplicate-ids-on-disk", f"the file holds the ids {sent_ids}"))
-    return {"mem": mem, "disk": disk, "reload": reload_}
+    return {"mem": mem, "disk": disk, "reload": reload_, "created": env.created_tick()}
 
 
 # ------------------------------------------------------------------------------------------------
@@ -844,7 +1116,8 @@ def compare(real, rep, variant):
         return f"the model rejected the history: {rep['err']}"
 
     def cmp_snap(where, r, m):
-        mm = [{"id": j["id"], "st": j["st"], "hd": j["hd"], "name": j["name"]} for j in m["mem"]]
+        mm = [{"id": j["id"], "st": j["st"], "hd": j["hd"], "name": j["name"], "res": j["res"], "dp": j["dp"]}
+              for j in m["mem"]]
         rm = r["mem"]
         # the name of a job loaded from a SUCCESS entry is not persisted (always "unnamed")
         if mm != rm:
@@ -854,6 +1127,8 @@ def compare(real, rep, variant):
         ml = [{"id": j["id"], "st": j["st"], "hd": j["hd"]} for j in m["reload"]]
         if r["reload"] != ml:
             return f"{where}: re-opened group differs: real {r['reload']} model {ml}"
+        if r["disk"] is not None and r.get("created") != m["created"]:
+            return f"{where}: creation second of the group file differs: real {r.get('created')} model {m['created']}"
         return None
 
     d = cmp_snap("after JobGroup(name)", real["init"], rep["init"])
@@ -878,7 +1153,7 @@ def compare(real, rep, variant):
     return None
 
 
-FIXED = {"ctx": True, "dir": True, "add": True, "stat": True, "poll": True}
+FIXED = {"ctx": True, "dir": True, "add": True, "stat": True, "poll": True, "res": True, "gst": True}
 
 
 def lean_request(hist, real, variant):
@@ -906,8 +1181,31 @@ WITNESS = {
         {"op": "add", "job": PLAIN, "kw": None},
         {"op": "launch", "rerun": False, "replace": False, "seq": True, "outs": [{"accept": 0}],
          "sts": ["RUNNING", "http:500"]}]},
+    # a canceled job whose (partial) results carry a result_mapping; an unsent job; results fetched; launch
+    "res": {"dir": True, "ops": [
+        {"op": "add", "job": {"hd": 0, "name": 1, "rest": 1, "ctx": 1}, "kw": None},
+        {"op": "launch", "rerun": False, "replace": False, "seq": False, "outs": [{"accept": 0}], "sts": []},
+        {"op": "add", "job": PLAIN, "kw": None},
+        {"op": "get_results", "sts": ["CANCELED"], "rsps": ["ok:mapped"]},
+        {"op": "launch", "rerun": False, "replace": False, "seq": False, "outs": [{"accept": 0}], "sts": []}]},
+    # a job the server reports as UNKNOWN during the refresh and as SUCCESS when job.get_results() asks again
+    "gst": {"dir": True, "ops": [
+        {"op": "add", "job": PLAIN, "kw": None},
+        {"op": "launch", "rerun": False, "replace": False, "seq": False, "outs": [{"accept": 0}], "sts": []},
+        {"op": "get_results", "sts": ["UNKNOWN", "SUCCESS"], "rsps": ["ok:plain"]}]},
 }
 WITNESS_WHAT = {
+    "res": "breaks 'if launching stops part-way, every job already accepted keeps its identifier on disk' and 'after every "
+           "operation that returns or raises, re-opening yields the same group': JobGroup.get_results() on a group holding a "
+           "CANCELED (or ERROR/UNKNOWN) job whose results carry a result_mapping (Sampler.probs on a sample_count platform): "
+           "RemoteJob._get_results replaces the job's _delta_parameters by the mapping delta parameters of the results (a "
+           "dictionary without the keys 'command'/'mapping'); from then on _create_payload_data() of that job raises "
+           "KeyError, so every save of the group raises: a following run_parallel() is accepted by the server and the "
+           "identifier it issued never reaches the file, add() of any job raises, rerun_failed_*() raises",
+    "gst": "breaks 'after every job-group operation that returns, re-opening yields the same last known status for every "
+           "job that was sent': JobGroup.get_results() refreshes the statuses (and saves them), then job.get_results() "
+           "evaluates job.status again for a job whose status is UNKNOWN (maybe_completed, not completed): the server's new "
+           "answer is kept in memory and never written: memory says SUCCESS, the file (and a re-opened group) UNKNOWN",
     "ctx": "breaks 'the request finally sent for any job is the same whether or not the group was re-opened in "
            "between': a job carrying a job_context (Sampler.probs on a sample_count-only platform) is added, the group "
            "is re-opened and launched: the request sent and the body then written have job_context null "
@@ -1219,27 +1517,59 @@ def gen_twin(rng, name):
     return rng.choice(cands) if cands else name + "_"
 
 
+GR_STATUSES = ["UNKNOWN", "UNKNOWN", "UNKNOWN", "SUCCESS", "SUCCESS", "ERROR", "CANCELED", "CANCELED", "RUNNING",
+               "WAITING", "SUSPENDED"]
+
+
+def add_intr(rng, chk, sts, p):
+    """a Ctrl-C at a uniformly chosen point of the status script"""
+    if rng.random() < p:
+        pos = rng.randint(0, len(sts))
+        sts = sts[:pos] + ["intr"] + sts[pos:]
+        chk.count("interrupt_scripted", "status-script")
+    return sts
+
+
+def gen_rsps(rng, chk, n):
+    out = []
+    for _ in range(n):
+        r = rng.random()
+        out.append("ok:mapped" if r < 0.3 else "ok:plain" if r < 0.55 else "unavailable" if r < 0.85 else
+                   rng.choice(["http:500", "http:404", "conn", "intr"]))
+    if n and rng.random() < 0.08:
+        out = out[:rng.randint(0, n - 1)]
+        chk.count("kill_in", "get-results")
+    return out
+
+
+OP_WEIGHTS = [("add", 25), ("add_local", 2), ("reopen", 11), ("launch", 15), ("rerun", 12), ("progress", 6), ("list", 5),
+              ("get_results", 10), ("track", 4), ("wipe", 3), ("delete_date", 4), ("other", 3)]
+
+
 def gen_history(rng, chk, max_ops, root):
     """Built online against the real group; returns (history, real run)."""
     name = gen_name(rng)
     twin = gen_twin(rng, name) if rng.random() < 0.4 else None
-    runner = Runner(root, rng.random() < 0.85, name, twin, rng.choice(["before", "before", "after"]))
+    pos = rng.choice(["before", "before", "after"])
+    runner = Runner(root, rng.random() < 0.85, name, twin, pos,
+                    rng.choice([-3, 0, 0]) if pos == "before" else rng.choice([0, 2]))
     n_ops = rng.randint(2, max_ops)
+    kinds, weights = zip(*OP_WEIGHTS)
     for _ in range(n_ops):
         if runner.dead and runner.jg is None:
             break
         n, unsent, active, failed, ids = group_state(runner)
-        r = rng.random()
-        if n == 0 or r < 0.30:
+        what = "add" if n == 0 and rng.random() < 0.8 else rng.choices(kinds, weights)[0]
+        if what == "add":
             hds = [i for j in runner.jg.remote_jobs for i, h in enumerate(runner.env.handlers[:N_GROUP_HANDLERS])
                    if h._meta() == runner.env.Handler._meta(j._rpc_handler)]
             st = GenState(ids, runner.env.server.skipped, hds)
             op = gen_job(rng, chk, rng.choice(JOB_KINDS), st)
-        elif r < 0.32:
+        elif what == "add_local":
             op = {"op": "add_local"}
-        elif r < 0.47:
+        elif what == "reopen":
             op = {"op": "reopen"}
-        elif r < 0.67:
+        elif what == "launch":
             seq = rng.random() < 0.4
             outs = gen_outs(rng, chk, unsent + rng.choice([0, 0, 1]))
             sts = []
@@ -1248,9 +1578,9 @@ def gen_history(rng, chk, max_ops, root):
                 if rng.random() < 0.15:
                     sts = sts[:rng.randint(0, max(0, len(sts) - 1))]
                     chk.count("kill_in", "sequential-polling")
-                sts = add_faults(rng, chk, sts)
+                sts = add_intr(rng, chk, add_faults(rng, chk, sts), 0.2)
             op = {"op": "launch", "rerun": False, "replace": False, "seq": seq, "outs": outs, "sts": sts}
-        elif r < 0.82:
+        elif what == "rerun":
             seq = rng.random() < 0.35
             sts = [rand_status(rng) for _ in range(2 * active + 1)]
             # how many jobs will be failed after the refresh is not known in advance: script for all candidates
@@ -1260,17 +1590,50 @@ def gen_history(rng, chk, max_ops, root):
             if rng.random() < 0.12 and active > 0:
                 sts = sts[:rng.randint(0, active - 1)]
                 chk.count("kill_in", "rerun-status")
-            sts = add_faults(rng, chk, sts)
+            sts = add_intr(rng, chk, add_faults(rng, chk, sts), 0.12 if seq else 0.04)
             op = {"op": "launch", "rerun": True, "replace": rng.random() < 0.5, "seq": seq, "outs": outs, "sts": sts}
-        elif r < 0.92:
+        elif what == "progress":
             sts = [rand_status(rng) for _ in range(active + 1)]
             if rng.random() < 0.1 and active > 0:
                 sts = sts[:rng.randint(0, active - 1)]
                 chk.count("kill_in", "progress")
-            op = {"op": "progress", "sts": add_faults(rng, chk, sts, 0.3 if active else 0.0)}
-        else:
+            op = {"op": "progress", "sts": add_intr(rng, chk, add_faults(rng, chk, sts, 0.3 if active else 0.0),
+                                                    0.06 if active else 0.0)}
+        elif what == "list":
             op = {"op": "list", "kind": rng.choice(["successful", "active", "unsuccessful", "unsent"]),
                   "sts": add_faults(rng, chk, [rand_status(rng) for _ in range(active + 1)], 0.3 if active else 0.0)}
+        elif what == "get_results":
+            # the refresh, then job.get_results() asks again for every job that is UNKNOWN
+            sts = [rng.choice(GR_STATUSES) for _ in range(active + 1)] + [rng.choice(GR_STATUSES) for _ in range(rng.randint(0, 3))]
+            if rng.random() < 0.08 and active > 0:
+                sts = sts[:rng.randint(0, active)]
+            sts = add_intr(rng, chk, add_faults(rng, chk, sts, 0.12 if active else 0.0), 0.04 if active else 0.0)
+            op = {"op": "get_results", "sts": sts, "rsps": gen_rsps(rng, chk, n + 1)}
+        elif what == "track":
+            rounds = rng.randint(1, 3)
+            sts = [rand_status(rng, False) for _ in range(active)]                 # list_active_jobs() before the loop
+            for r_ in range(rounds):
+                sts += [rand_status(rng, None if r_ == rounds - 1 else False) for _ in range(active)]
+            sts += [rand_status(rng, True) for _ in range(active)]
+            if rng.random() < 0.15 and sts:
+                sts = sts[:rng.randint(0, len(sts) - 1)]
+            op = {"op": "track", "sts": add_intr(rng, chk, add_faults(rng, chk, sts, 0.1 if active else 0.0),
+                                                 0.25 if active else 0.0)}
+        elif what == "wipe":
+            op = {"op": "wipe", "how": rng.choice(["name", "name", "all"])}
+        elif what == "delete_date":
+            now = _CLOCK["tick"]
+            cands = [0, now, now + 1, now + 3]
+            for c in [runner.env.created_tick()] + list(runner.others.values()):
+                if c is not None:
+                    cands += [max(c, 0), max(c + 1, 0)]
+            op = {"op": "delete_date", "cutoff": rng.choice(cands)}
+        else:
+            w = rng.choice(["list", "list", "delete", "delete", "touch", "touch"])
+            op = {"op": "other", "what": w}
+            if w != "list":
+                op["name"] = twin if (twin is not None and rng.random() < 0.5) else gen_twin(rng, name)
+        op["dt"] = rng.choice([0, 0, 1, 2])
         runner.step(op)
     return runner.finish()
 
@@ -1352,6 +1715,295 @@ def exhaustive_fault_histories(nmax):
                 if FIXED_NAMES[k % len(FIXED_NAMES)] != GROUP:
                     h["name"] = FIXED_NAMES[k % len(FIXED_NAMES)]
                 yield h
+
+
+def _with_reopens(base, first, name_k):
+    """the history as it is, and with one re-open at every operation boundary from `first` on"""
+    for pos in range(first, len(base) + 1):
+        ops = base[:pos] + ([{"op": "reopen"}] if pos < len(base) else []) + base[pos:]
+        h = {"dir": True, "ops": copy.deepcopy(ops)}
+        if FIXED_NAMES[name_k % len(FIXED_NAMES)] != GROUP:
+            h["name"] = FIXED_NAMES[name_k % len(FIXED_NAMES)]
+        yield h
+
+
+def exhaustive_extension_histories(nmax, full):
+    """(A) get_results: groups of <= nmax jobs sent in parallel, every vector of server statuses in {SUCCESS, CANCELED,
+    UNKNOWN}^n, every answer in {UNKNOWN, SUCCESS, RUNNING} to the second status request job.get_results() makes for an
+    UNKNOWN job, every vector of results answers in {mapped, plain, unavailable, HTTP 500}^n (restricted for n > 1 unless
+    `full`), then a second get_results, an add and a launch, with a re-open at every boundary;
+    (B) deletion: delete by name / all groups / by date with the cut-off before, at and after the group's creation second,
+    x a bystander group created 3 s before, in the same second, 2 s after, x the position of the deletion in a short
+    history, followed by add / launch / a second deletion;
+    (C) Ctrl-C: sequential launches of <= 2 jobs with the interrupt at every position of the wait script (status request,
+    sleep inside the wait, delay after a completed job), and track_progress with the interrupt at every position."""
+    kinds = [{"hd": 0, "name": 1, "rest": 1, "ctx": 1}, {"hd": 3, "name": 2, "rest": 2}, {"hd": 2, "name": 3, "rest": 1}]
+    par = {"op": "launch", "rerun": False, "replace": False, "seq": False}
+    k = 0
+    # (A)
+    for n in range(1, nmax + 1):
+        adds = [{"op": "add", "job": dict(kinds[i % 3]), "kw": None} for i in range(n)]
+        rsp_sets = list(itertools.product(["ok:mapped", "ok:plain", "unavailable", "http:500"], repeat=n))
+        if n > 1 and not full:
+            rsp_sets = [v for v in rsp_sets if all(x in ("ok:mapped", "unavailable") for x in v[1:])]
+        for vec in itertools.product(["SUCCESS", "CANCELED", "UNKNOWN"], repeat=n):
+            unk = [i for i, x in enumerate(vec) if x == "UNKNOWN"]
+            for again in itertools.product(["UNKNOWN", "SUCCESS", "RUNNING"], repeat=len(unk)):
+                for rsps in rsp_sets:
+                    base = adds + [
+                        dict(par, outs=[{"accept": 0}] * n, sts=[]),
+                        {"op": "progress", "sts": list(vec)},
+                        {"op": "get_results", "sts": ["UNKNOWN"] * len(unk) + list(again), "rsps": list(rsps)},
+                        {"op": "get_results", "sts": ["UNKNOWN", "SUCCESS"] * n, "rsps": ["ok:plain"] * n},
+                        {"op": "add", "job": dict(kinds[1]), "kw": None},
+                        dict(par, outs=[{"accept": 0}], sts=[]),
+                        {"op": "launch", "rerun": True, "replace": True, "seq": False, "outs": [{"accept": 0}] * n,
+                         "sts": ["CANCELED"] * (n + 1)}]
+                    poss = range(n + 2, len(base) + 1) if (n == 1 or full) else [n + 3, len(base)]
+                    for pos in poss:
+                        k += 1
+                        ops = base[:pos] + ([{"op": "reopen"}] if pos < len(base) else []) + base[pos:]
+                        h = {"dir": True, "ops": copy.deepcopy(ops)}
+                        if FIXED_NAMES[k % len(FIXED_NAMES)] != GROUP:
+                            h["name"] = FIXED_NAMES[k % len(FIXED_NAMES)]
+                        yield h
+    # (B)
+    dels = [{"op": "wipe", "how": "name"}, {"op": "wipe", "how": "all"}] + \
+           [{"op": "delete_date", "cutoff": c} for c in (0, 1, 2, 5)]
+    short = [{"op": "add", "job": dict(kinds[0]), "kw": None}, dict(par, outs=[{"accept": 0}], sts=[]),
+             {"op": "progress", "sts": ["ERROR"]}]
+    for twin_pos, twin_tick in (("before", -3), ("before", 0), ("after", 2), (None, 0)):
+        for d1 in dels:
+            for dt in (0, 1, 4):
+                for pos in range(len(short) + 1):
+                    for d2 in (dels if full else dels[2:4] + dels[:1]):
+                        k += 1
+                        ops = short[:pos] + [dict(d1, dt=dt)] + short[pos:] + \
+                            [{"op": "other", "what": "list"}, dict(d2, dt=1), {"op": "add", "job": dict(kinds[1]), "kw": None},
+                             {"op": "other", "what": "list"}]
+                        h = {"dir": True, "ops": copy.deepcopy(ops)}
+                        name = FIXED_NAMES[k % len(FIXED_NAMES)]
+                        if name != GROUP:
+                            h["name"] = name
+                        if twin_pos is not None:
+                            h["twin"], h["twin_pos"], h["twin_tick"] = name.replace(" ", "_") + "_", twin_pos, twin_tick
+                        yield h
+    # (C)
+    waits = [["SUCCESS"], ["RUNNING", "ERROR"]]
+    for n in (1, 2):
+        adds = [{"op": "add", "job": dict(kinds[i % 3]), "kw": None} for i in range(n)]
+        for vec in itertools.product(range(len(waits)), repeat=n):
+            sts = [a for i in vec for a in waits[i]]
+            for ipos in range(len(sts) + 1):
+                isr = sts[:ipos] + ["intr"] + sts[ipos:]
+                base = adds + [
+                    {"op": "launch", "rerun": False, "replace": False, "seq": True, "outs": [{"accept": 0}] * n, "sts": isr},
+                    {"op": "progress", "sts": ["SUSPENDED"] * n},
+                    {"op": "launch", "rerun": False, "replace": False, "seq": True, "outs": [{"accept": 1}] * n,
+                     "sts": ["CANCELED"] * n},
+                    {"op": "launch", "rerun": True, "replace": ipos % 2 == 0, "seq": True, "outs": [{"accept": 0}] * (2 * n),
+                     "sts": ["CANCELED"] * n + ["RUNNING", "intr"]}]
+                for h in _with_reopens(base, n, k):
+                    k += 1
+                    yield h
+        for rounds in (1, 2):
+            sts = ["RUNNING"] * n * (rounds + 1) + ["SUCCESS"] * n
+            for ipos in range(len(sts) + 1):
+                base = adds + [dict(par, outs=[{"accept": 0}] * n, sts=[]),
+                               {"op": "track", "sts": sts[:ipos] + ["intr"] + sts[ipos:]},
+                               {"op": "progress", "sts": ["ERROR"] * n},
+                               {"op": "track", "sts": []}]
+                for h in _with_reopens(base, n + 1, k):
+                    k += 1
+                    yield h
+
+
+# ------------------------------------------------------------------------------------------------
+# the group files of one directory through JobGroup's own entry points: JobGroup(name), add, list_existing,
+# delete_job_group, delete_all_job_groups, delete_job_groups_date — against a dictionary keyed by the name (direct
+# oracle) and against the model's directory (`PM.C19.NS`)
+# ------------------------------------------------------------------------------------------------
+DOT_NAMES = ["", ".", "..."]
+
+
+def run_ns(root, script):
+    """script = {"names": [...], "ops": [{"op": open|save|has|list|delete|delete_all|delete_date, "n": i, "now": t,
+    "cutoff": c}]} -> (observations, model ops, oracle findings)"""
+    env = Env(root, True, "ns-unused")
+    JobGroup = env.JobGroup
+    names = script["names"]
+    ext = "." + env.jgmod.FILE_EXT_JGRP
+    ref = {}       # name index -> [creation second, number of jobs]
+    obs, lean_ops, bad = [], [], []
+    try:
+        with warnings.catch_warnings():
+            warnings.simplefilter("ignore")
+            for t, op in enumerate(script["ops"]):
+                kind = op["op"]
+                i = op.get("n")
+                if "now" in op:
+                    _CLOCK["tick"] = op["now"]
+                lop = {k_: v for k_, v in op.items()}
+                try:
+                    if kind == "open":
+                        g = JobGroup(names[i])
+                        ref.setdefault(i, [op["now"], 0])
+                        obs.append({"content": {"created": tick_of(g.created_date.strftime("%Y%m%d_%H%M%S")), "data": len(g)}})
+                    elif kind == "save":
+                        g = JobGroup(names[i])
+                        g.add(env.build_job(dict(PLAIN, name=2, rest=2)))
+                        ref.setdefault(i, [op["now"], 0])
+                        ref[i][1] += 1
+                        lop["data"] = ref[i][1]
+                        obs.append({"content": {"created": tick_of(g.created_date.strftime("%Y%m%d_%H%M%S")), "data": len(g)}})
+                    elif kind == "has":
+                        obs.append({"found": bool(JobGroup._exists_on_disk(names[i]))})
+                    elif kind == "list":
+                        got = JobGroup.list_existing()
+                        obs.append({"names": sorted(names.index(x) for x in got)} if all(x in names for x in got)
+                                   else {"names": sorted(map(repr, got))})
+                    elif kind == "delete":
+                        JobGroup.delete_job_group(names[i])
+                        ref.pop(i, None)
+                        obs.append("done")
+                    elif kind == "delete_all":
+                        JobGroup.delete_all_job_groups()
+                        ref.clear()
+                        obs.append("done")
+                    elif kind == "delete_date":
+                        JobGroup.delete_job_groups_date(EPOCH + _dt.timedelta(seconds=op["cutoff"]))
+                        for j in [j for j, (c, _n) in ref.items() if c < op["cutoff"]]:
+                            del ref[j]
+                        obs.append("done")
+                    else:
+                        raise RuntimeError(f"unknown ns op {kind}")
+                except Exception as e:   # noqa: BLE001
+                    if through_code_under_test(e) is None:
+                        raise
+                    bad.append((t, f"namespace-operation-raises:{kind}:{type(e).__name__}",
+                                f"{kind} ({names[i] if i is not None else ''!r}) raises {type(e).__name__}: {str(e)[:200]}"))
+                    obs.append("raised")
+                    lean_ops.append(lop)
+                    break
+                lean_ops.append(lop)
+                # direct oracle: the directory is the dictionary, name by name
+                files = env.dir_files()
+                want = {names[j] + ext for j in ref}
+                if set(files) != want:
+                    odd = set(files) ^ want
+                    dotted = all(f[:-len(ext)].strip(".") == "" or f.endswith(ext + ext) for f in odd)
+                    sig = SIG_DOTS if (dotted and kind in ("delete_all", "delete_date")) else "group-files-not-keyed-by-name"
+                    bad.append((t, sig, f"after {kind} (script names {names}) the directory holds {sorted(files)}; the groups "
+                                        f"that were saved and not deleted are {sorted(want)}"))
+                    break
+                for j, (c, cnt) in ref.items():
+                    data = json.loads(files[names[j] + ext].decode("UTF-8"))
+                    if tick_of(data["created_date"]) != c or len(data["job_group_data"]) != cnt:
+                        bad.append((t, "group-files-not-keyed-by-name",
+                                    f"after {kind} the file of the group named {names[j]!r} holds creation second "
+                                    f"{tick_of(data['created_date'])} and {len(data['job_group_data'])} jobs; expected {c}, {cnt}"))
+                        break
+                if bad:
+                    break
+                if kind == "list" and obs[-1] != {"names": sorted(ref)}:
+                    dotted = any(names[j].strip(".") == "" for j in ref)
+                    bad.append((t, SIG_DOTS if dotted else "list-existing-wrong",
+                                f"list_existing() returned {obs[-1]['names']} (indices into {names}); saved groups: {sorted(ref)}"))
+                    break
+    finally:
+        shutil.rmtree(env.dir, ignore_errors=True)
+    return obs, lean_ops, bad
+
+
+def gen_ns_script(rng, chk, dots_ok):
+    base = gen_name(rng)
+    names = [base]
+    for _ in range(rng.randint(1, 3)):
+        nm = gen_twin(rng, rng.choice(names)) if rng.random() < 0.7 else gen_name(rng)
+        if nm not in names:
+            names.append(nm)
+    if dots_ok and rng.random() < 0.3:
+        nm = rng.choice(DOT_NAMES)
+        if nm not in names:
+            names.append(nm)
+    ops, now = [], 0
+    for _ in range(rng.randint(3, 12)):
+        now += rng.choice([0, 0, 1, 2, 5])
+        kind = rng.choice(["open", "save", "save", "save", "has", "list", "list", "delete", "delete_all", "delete_date",
+                           "delete_date", "open"])
+        op = {"op": kind}
+        if kind in ("open", "save", "has", "delete"):
+            op["n"] = rng.randrange(len(names))
+        if kind in ("open", "save", "delete_date"):
+            op["now"] = now
+        if kind == "save":
+            op["data"] = 0       # filled from the dictionary while the script runs
+        if kind == "delete_date":
+            op["cutoff"] = max(0, now - rng.choice([0, 0, 1, 2, 3, 6, -1]))
+        ops.append(op)
+    return {"names": names, "ops": ops}
+
+
+def judge_ns(chk, root, script):
+    obs, lean_ops, bad = run_ns(root, script)
+    out = [("violation", sig, f"call {t}: {what}"[:900]) for (t, sig, what) in bad[:1]]
+    rep = chk.lean.ask({"ns": [{k_: v for k_, v in o.items()} for o in lean_ops]})
+    if not out:
+        if "err" in rep:
+            out.append(("broken", "model-vs-code", f"the model rejected the directory script: {rep['err']}"))
+        elif rep["obs"] != obs:
+            out.append(("broken", "model-vs-code", f"group files of a directory: real {obs} model {rep['obs']}"[:900]))
+    return out
+
+
+def shrink_ns(chk, root, script, sig):
+    cur = copy.deepcopy(script)
+    changed = True
+    while changed:
+        changed = False
+        for i in range(len(cur["ops"]) - 1, -1, -1):
+            cand = copy.deepcopy(cur)
+            del cand["ops"][i]
+            if any(s_ == sig for (_, s_, _) in judge_ns(chk, root, cand)):
+                cur, changed = cand, True
+                break
+    return cur
+
+
+def handle_ns(chk, root, script):
+    chk.branch("ns-script")
+    kinds = {o["op"] for o in script["ops"]}
+    for k_ in ("delete_all", "delete_date", "delete", "list"):
+        if k_ in kinds:
+            chk.branch("ns-" + k_.replace("_", "-"))
+    if any(n.strip(".") == "" for n in script["names"]):
+        chk.branch("ns-dot-name")
+    chk.case(("ns", len(script["names"]), tuple(o["op"] for o in script["ops"])), nontrivial=True)
+    for kind, sig, what in judge_ns(chk, root, script):
+        seen = chk.extra.setdefault("failing_histories_per_signature", {})
+        seen[sig] = seen.get(sig, 0) + 1
+        if seen[sig] > 1:
+            continue
+        chk.fail(kind, sig, what, {"ns": shrink_ns(chk, root, script, sig) if kind == "violation" else script})
+
+
+NS_WITNESS = {"names": ["", "g"], "ops": [{"op": "save", "n": 0, "data": 0, "now": 1}, {"op": "save", "n": 1, "data": 0, "now": 2},
+                                          {"op": "list"}, {"op": "delete_all"}, {"op": "has", "n": 0}]}
+NS_WITNESS_WHAT = ("breaks 'after a deletion, re-opening a group by name yields a fresh empty group': JobGroup.list_existing() "
+                   "recovers group names with os.path.splitext, which does not split a file name made of dots only: the "
+                   "group named '' (file '.jgrp'; likewise '.', '...') is listed as '.jgrp', so delete_all_job_groups() "
+                   "tries to delete '.jgrp.jgrp' and leaves the group in place, and delete_job_groups_date() opens "
+                   "JobGroup('.jgrp'), which creates a new group file")
+
+
+def detect_dots(chk, root):
+    """-> True when list_existing handles names made of dots only"""
+    _obs, _ops, bad = run_ns(root, NS_WITNESS)
+    chk.branch("witness-dots")
+    chk.case(("witness", "dots", bool(bad)), nontrivial=True)
+    if bad:
+        chk.fail("violation", SIG_DOTS, NS_WITNESS_WHAT + " — observed: " + bad[0][2][:500], {"ns": NS_WITNESS})
+    return not bad
 
 
 # ------------------------------------------------------------------------------------------------
@@ -1496,6 +2148,48 @@ def account(chk, hist, real):
         if op["op"] == "launch" and op["rerun"] and any(m["id"] is None and m["st"] == "ERROR" for m in s["mem"]):
             chk.branch("unsent-error-in-rerun")
             break
+    # the operations and stopping points added by the extension
+    mapped_pending, prev_disk = False, real["init"]["disk"]
+    prev_created = real["init"].get("created")
+    for op, s in zip(hist["ops"], real["steps"]):
+        k, res, info = op["op"], s["res"], s.get("info") or {}
+        last = info.get("last")
+        if res == "raised:KeyboardInterrupt":
+            where = "sleep" if last and last[0] == "sleep" else "results" if last and last[0] == "results" else "status"
+            chk.branch("intr-in-" + where)
+            chk.count("interrupt", f"{k}:{where}")
+            if k == "launch" and op["seq"]:
+                chk.branch("intr-in-wait")
+        if k == "get_results":
+            if res == "ok":
+                chk.branch("get-results")
+            if info.get("requery"):
+                chk.branch("get-results-requery")
+            for r in info.get("rsps_used", []):
+                chk.count("results_answer", r)
+                chk.branch("get-results-mapped" if r == "ok:mapped" else "get-results-plain" if r == "ok:plain" else
+                           "get-results-unavailable" if r == "unavailable" else "get-results-fault")
+            if "ok:mapped" in info.get("rsps_used", []) and any(m["res"] and m["st"] != "SUCCESS" for m in s["mem"]):
+                mapped_pending = True
+        elif mapped_pending and res == "ok" and k in ("add", "launch") and s["disk"] != prev_disk:
+            chk.branch("save-after-mapped-results")
+        if k == "track":
+            chk.branch("track-ends" if res == "ok" else "track-hang" if (res == "killed" and last and last[0] == "sleep")
+                       else "track-stopped")
+        if k == "wipe" and res == "ok":
+            chk.branch("wipe-" + op["how"])
+            if prev_disk:
+                chk.branch("wipe-non-empty-group")
+        if k == "delete_date" and res == "ok" and prev_created is not None:
+            chk.branch("delete-date-hit" if prev_created < op["cutoff"] else "delete-date-miss")
+            if prev_created == op["cutoff"]:
+                chk.branch("delete-date-boundary")
+            if prev_created < op["cutoff"] and prev_disk:
+                chk.branch("delete-date-hit-non-empty-group")
+        if k == "other" and res == "ok":
+            chk.branch("other-" + op["what"])
+        if res not in ("dead", "crashed"):
+            prev_disk, prev_created = s["disk"], s.get("created")
 
 
 def handle_batch(chk, root, batch, variant, reals=None):
@@ -1682,7 +2376,7 @@ def load_corpus():
     out = []
     for p in sorted(glob.glob(os.path.join(core.VERIF, "corpus", "C19", "*.json"))):
         d = json.load(open(p))
-        out.append(("fs", d["fs"]) if "fs" in d else ("history", d["history"]))
+        out.append(("fs", d["fs"]) if "fs" in d else ("ns", d["ns"]) if "ns" in d else ("history", d["history"]))
     return out
 
 
@@ -1733,7 +2427,15 @@ def run(chk: core.Check):
                              "status-change-then-fault-in-refresh", "status-change-then-fault-in-wait",
                              "reopen-with-same-platform-other-credentials",
                              "launch-after-reopen-with-same-platform-other-credentials",
-                             "twin-shares-platform-with-group", "exhaustive-status-faults"]
+                             "twin-shares-platform-with-group", "exhaustive-status-faults",
+                             # the extension: get_results, track_progress, Ctrl-C, listing and deletion
+                             "witness-res", "witness-gst", "witness-dots", "get-results", "get-results-requery",
+                             "get-results-mapped", "get-results-plain", "get-results-unavailable", "get-results-fault",
+                             "save-after-mapped-results", "track-ends", "track-hang", "intr-in-sleep", "intr-in-status",
+                             "intr-in-wait", "wipe-name", "wipe-all", "wipe-non-empty-group", "delete-date-hit",
+                             "delete-date-miss", "delete-date-boundary", "delete-date-hit-non-empty-group", "other-list",
+                             "other-delete", "other-touch", "ns-script", "ns-delete-all", "ns-delete-date", "ns-delete",
+                             "ns-list", "exhaustive-extension"]
     setup_perceval()
     chk.lean = core.LeanDriver("C19")
     root = tempfile.mkdtemp(prefix="run-", dir=_ROOT)
@@ -1747,12 +2449,20 @@ def run(chk: core.Check):
         if not chk.extra["data_directory_isolation"]["inside_private_root"]:
             raise RuntimeError(f"perceval's default persistent-data directory {default_dir} is outside the private root")
         variant = detect_variant(chk, root)
+        dots_ok = detect_dots(chk, root)
         chk.extra["code_variant"] = {k: ("repaired" if v else "defect present") for k, v in variant.items()}
+        chk.extra["code_variant"]["list_existing_dot_names"] = "repaired" if dots_ok else "defect present"
         for kind, item in load_corpus():
             if kind == "fs":
                 handle_fs(chk, root, item)
+            elif kind == "ns":
+                if dots_ok or not any(n.strip(".") == "" for n in item["names"]):
+                    handle_ns(chk, root, item)
             else:
                 handle_batch(chk, root, [item], variant)
+        # listing and deleting the group files of a directory through JobGroup's own entry points
+        for _ in range(chk.pick(250, 1200)):
+            handle_ns(chk, root, gen_ns_script(chk.rng, chk, dots_ok))
         # the file primitives over several (close) names, against the name-keyed store of the model
         for _ in range(chk.pick(300, 1500)):
             handle_fs(chk, root, gen_fs_script(chk.rng, chk))
@@ -1780,6 +2490,19 @@ def run(chk: core.Check):
         if batch:
             handle_batch(chk, root, batch, variant)
         chk.branch("exhaustive-status-faults", n_flt)
+        n_ext = 0
+        batch = []
+        for hist in exhaustive_extension_histories(chk.pick(2, 2), chk.pick(False, True)):
+            batch.append(hist)
+            n_ext += 1
+            if len(batch) == 200:
+                handle_batch(chk, root, batch, variant)
+                batch = []
+        if batch:
+            handle_batch(chk, root, batch, variant)
+        chk.branch("exhaustive-extension", n_ext)
+        chk.extra["exhaustive_extension_histories"] = n_ext
+        chk.extra["exhaustive_extension_rule"] = exhaustive_extension_histories.__doc__
         chk.extra["exhaustive_status_fault_histories"] = n_flt
         chk.extra["exhaustive_status_fault_rule"] = exhaustive_fault_histories.__doc__
         chk.extra["exhaustive_histories"] = n_exh
@@ -1816,6 +2539,12 @@ def replay(chk, data):
             chk.case(("fs", script["style"]), True)
             for kind, sig, what in judge_fs(chk, root, script):
                 chk.fail(kind, sig, what, {"fs": script})
+            return
+        if "ns" in data["replay"]:
+            script = data["replay"]["ns"]
+            chk.case(("ns", len(script["names"])), True)
+            for kind, sig, what in judge_ns(chk, root, script):
+                chk.fail(kind, sig, what, {"ns": script})
             return
         hist = data["replay"]["history"]
         real = run_real(root, hist)
